@@ -1,0 +1,15 @@
+// Copyright 2018 The Wuffs Authors.
+//
+// SPDX-License-Identifier: Apache-2.0 OR MIT
+
+//go:build !verif
+// +build !verif
+
+package check
+
+import (
+	a "github.com/google/wuffs/lang/ast"
+)
+
+// verifObserveFacts is a no-op unless built with the "verif" tag.
+func (q *checker) verifObserveFacts(n *a.Node) {}
